@@ -9,6 +9,8 @@ import EdpVerif.Lemmas.SpecValid
 import EdpVerif.Impl.EncodeEntry
 import EdpVerif.Impl.DistHeader
 import EdpVerif.Generated.MiscC01
+import EdpVerif.Lemmas.WireOrder
+import EdpVerif.Lemmas.RoundTripLocal
 /-
 C01 — encode/decode round trip preserves the Erlang value of every term.
 Property theorems only; helper lemmas live in EdpVerif/Lemmas.
@@ -383,5 +385,88 @@ theorem C01_dist_header_same_term_bytes (env : Spec.Env) (order : List Bytes) (t
 
 example : encodeDist [[97]] [.tuple [.atom [97], .int 1]] = .ok ([131, 68] ++ header [[97]] ++ [104, 2, 82, 0, 97, 1]) := by
   rfl
+
+/-! ### the `sortedKeys` guard follows from the `BTreeMap` invariant of the INPUT term
+
+`sortedKeys` speaks about the keys as they come back from the wire.  A Rust `OwnedTerm::Map` is a `BTreeMap`: it hands its
+entries out in strictly ascending key order (`mapsStrict t`: at every map node of `t`, pairwise, under `Term.cmp`) — a
+statement about the term as it is, before any encoding.  The order does not see what the wire does to a term
+(`C01_order_invariant_under_wire`), so the guard follows and the three guarded theorems hold for every well-formed term
+whose maps are `BTreeMap`s. -/
+
+/-- `Term.cmp (wire a) (wire b) = Term.cmp a b`: integer widths (`Integer` ↔ `BigInt`), `String` → `Binary`, `List([])` → `Nil`,
+improper lists with a nil tail → proper lists and the re-insertion of map entries are all invisible to the order — all
+terms of `i64` integers (`i64T`, a type invariant; implied by `wfT`) whose maps are `BTreeMap`s -/
+theorem C01_order_invariant_under_wire (a b : Term) (ha : i64T a = true) (hb : i64T b = true)
+    (sa : mapsStrict a = true) (sb : mapsStrict b = true) : Term.cmp (wire a) (wire b) = Term.cmp a b :=
+  cmp_wire a b ha hb sa sb
+
+theorem C01_ex2_btree : mapsStrict ex2 = true := by
+  simp [ex2, mapsStrict, mapsStrictKV, mapsStrictL, pairwiseLt, allLt, Term.cmp, Term.norm, Term.cmpN]
+  decide
+
+example : Term.cmp (wire (.int 5000000000)) (wire (.str [104])) = Term.cmp (.int 5000000000) (.str [104]) :=
+  C01_order_invariant_under_wire _ _ (by decide) (by decide) (by simp [mapsStrict]) (by simp [mapsStrict])
+
+/-- without the map guard: the order ignores everything but the re-insertion, for ALL terms (`wire0`: the wire image
+with map entries left where they are) -/
+theorem C01_order_invariant_all_terms (a b : Term) : Term.cmp (wire0 a) (wire0 b) = Term.cmp a b := cmp_wire0 a b
+
+/-- the guard of `C01_value_preserved` / `C01_reencode`, discharged: a well-formed term whose maps are `BTreeMap`s has
+increasing keys after the wire -/
+theorem C01_sorted_keys_from_btree (t : Term) (hw : wfT t = true) (hs : mapsStrict t = true) : sortedKeys t = true :=
+  sortedKeys_of_mapsStrict t (i64T_of_wfT t hw) hs
+
+/-- what comes back from the wire is a term whose maps are `BTreeMap`s again (so the statements can be iterated) -/
+theorem C01_wire_keeps_btree (t : Term) (hw : wfT t = true) (hs : mapsStrict t = true) : mapsStrict (wire t) = true :=
+  mapsStrict_wire t (i64T_of_wfT t hw) hs
+
+/-- value preservation for every well-formed term whose maps are `BTreeMap`s (no guard on the wire keys) -/
+theorem C01_value_preserved_btree (t : Term) (hw : wfT t = true) (hs : mapsStrict t = true) : den (wire t) = den t :=
+  den_wire t hw (C01_sorted_keys_from_btree t hw hs)
+
+example : den (wire ex2) = den ex2 := C01_value_preserved_btree ex2 (by decide) C01_ex2_btree
+
+/-- the full cycle encode → decode (library decoder, any external behaviour) → the value is the original value -/
+theorem C01_decoded_value_is_original (x : Ext) (t t' : Term) (bs : Bytes) (hw : wfT t = true)
+    (hd : dep t ≤ MAX_NESTING_DEPTH) (hs : mapsStrict t = true) (he : encode t = .ok bs) (hdec : decode x bs = .ok t') :
+    den t' = den t ∧ mapsStrict t' = true := by
+  rw [C01_roundtrip x t bs hw hd he] at hdec
+  cases hdec
+  exact ⟨C01_value_preserved_btree t hw hs, C01_wire_keeps_btree t hw hs⟩
+
+/-- re-encoding for every well-formed term whose maps are `BTreeMap`s -/
+theorem C01_reencode_btree (t : Term) (bs : Bytes) (hw : wfT t = true) (hs : mapsStrict t = true)
+    (hn : noEmptyImproper t = true) (he : encode t = .ok bs) : encode (wire t) = .ok bs :=
+  C01_reencode t bs (C01_sorted_keys_from_btree t hw hs) hn he
+
+example : ∃ bs, encode ex2 = .ok bs ∧ encode (wire ex2) = .ok bs :=
+  ⟨_, rfl, C01_reencode_btree ex2 _ (by decide) C01_ex2_btree (by decide) rfl⟩
+
+/-! ### identifiers that carry preserved LOCAL_EXT bytes, at any depth
+
+`wfT` asks identifiers in plain form.  `wfX cache` (Lemmas/RoundTripLocal.lean) is `wfT` except that a pid, port or
+reference anywhere in the term — and the creator pid of a fun — may carry `loc = some (hash ++ plain)`, 8 hash bytes
+followed by the encoding of its logical fields: what `parse_local_ext` preserves.  Such an identifier costs one more
+nesting level (`depX`). -/
+
+/-- the round trip for terms with node-local identifiers at any depth (owned decoder; the zero-copy decoder has no
+LOCAL_EXT arm) -/
+theorem C01_roundtrip_local (x : Ext) (t : Term) (bs : Bytes) (hw : wfX [] t) (hd : depX t ≤ MAX_NESTING_DEPTH)
+    (he : encode t = .ok bs) : decode x bs = .ok (wire t) := decode_encode_local x t bs hw hd he
+
+/-- it extends `C01_roundtrip`: every `wfT` term is a `wfX` term -/
+theorem C01_local_wellformedness_extends (cache : List Bytes) (t : Term) (h : wfT t = true) : wfX cache t :=
+  wfX_of_wfT cache t h
+
+/-- a node-local pid as a map value inside a tuple -/
+def ex3loc : Bytes := [1, 2, 3, 4, 5, 6, 7, 8, 88, 119, 1, 97, 0, 0, 0, 1, 0, 0, 0, 2, 0, 0, 0, 3]
+def ex3 : Term := .tuple [.map [(.int 1, .pid { node := [97], id := 1, serial := 2, creation := 3, loc := some ex3loc })]]
+
+example : wfX [] ex3 ∧ depX ex3 ≤ MAX_NESTING_DEPTH := by
+  refine ⟨?_, by simp [ex3, depX, depXL, depXKV, idDep, locOf, dep, MAX_NESTING_DEPTH]⟩
+  simp only [ex3, ex3loc, wfX, wfXL, wfXKV, locOk, locOf]
+  refine ⟨by decide, ⟨by decide, ⟨by decide, ?_, trivial⟩⟩, trivial⟩
+  exact ⟨[1, 2, 3, 4, 5, 6, 7, 8], [88, 119, 1, 97, 0, 0, 0, 1, 0, 0, 0, 2, 0, 0, 0, 3], rfl, rfl, by decide, rfl⟩
 
 end Edp.Props.C01
